@@ -155,6 +155,9 @@ func runC02(p *P, r *R) {
 		return constructHas(o, "free-list header", "slot header", "(bufferHeader)", "stride", "initial tail", "countBufferListMemSize", "every size class", "advances to the next list")
 	})
 
+	// R02.9 a slot that re-enters the free chain carries no stale link (shared with C01 R01.5): the chain must end at the tail
+	borrow(p, r, "C01", runC01, map[string]string{"R01.5": "R02.9", "R01.8": "R02.9"}, nil)
+
 	// R02.7 the head CAS must not be ABA-prone: a stale popper's CAS detaches the rest of the chain (buffers lost)
 	abaRule(p, r, "R02.7")
 
